@@ -21,7 +21,9 @@ def _no_seed(calls):
 
 def core_family(rep, env, conf, family, tier, what):
     calls = K.spec_to_code(rep, env, conf, 'MC_Core', 'MC_Core_%s_%s.cfg' % (family, tier), what, transform=_no_seed)
-    K.code_to_spec(rep, env, conf, calls, what + ' executed on the implementation', tag=family)
+    # all calls on the same string (whatever the type or the constructor) go to the same interpreter
+    key = (lambda c: '/'.join(c.get('segs') or c.get('a', {}).get('segs', [])))
+    K.code_to_spec(rep, env, conf, calls, what + ' executed on the implementation', tag=family, shard_key=key)
     return calls
 
 
@@ -96,8 +98,9 @@ def search_family(rep, env, conf, family, tier, what, keep=None, gt=True, max_ca
     if max_calls:
         rep.notes['replayed'] = 'TLC checked the whole family on the model; the quick tier replays a seeded sample of %d calls on the implementation (thorough replays all)' % max_calls
     uni = _universes(env, conf) if family != 'unfold' else ''
-    K.code_to_spec(rep, env, conf, calls, what + ' executed on the implementation', tag=family,
-                   extra={'SPIL_UNIVERSES': uni})
+    trace = K.code_to_spec(rep, env, conf, calls, what + ' executed on the implementation', tag=family,
+                           extra={'SPIL_UNIVERSES': uni})
+    rep.last_trace = trace
     return calls
 
 
@@ -133,6 +136,23 @@ def check_C08(tier):
     conf = extract_conf(env)
     calls = search_family(rep, env, conf, 'findlist', tier, 'C08 family: searches without ">" x generated universes (complete / leaf-only / noisy)', gt=False,
                           max_calls=(15000 if tier == 'quick' else None))
+    # sid.match(s): True exactly when s would find the Sid in a list that holds only that Sid
+    universes = json.load(open(_universes(env, conf)))['universes']
+    rnd = random.Random(SEED + 7)
+    mcalls = []
+    observed = {}
+    if getattr(rep, 'last_trace', None):
+        with open(rep.last_trace) as f:
+            for line in f:
+                r_ = json.loads(line)
+                if r_['obs'].get('res'):
+                    observed[json.dumps(r_['call']['search'], sort_keys=True)] = r_['obs']['res']
+    for c in rnd.sample(calls, min(len(calls), 2500 if tier == 'quick' else 30000)):
+        # entries the search was observed to find (inputs only: the verdict is the specification's), and random ones
+        hits = observed.get(json.dumps(c['search'], sort_keys=True), [])
+        for e in rnd.sample(hits, min(2, len(hits))) + rnd.sample(universes[c['univ']], 2):
+            mcalls.append(dict(op='match', search=c['search'], entry=e))
+    K.code_to_spec(rep, env, conf, mcalls, 'sid.match(search) for sampled (search, entry) pairs of the family', tag='match')
     rep.exhaustive = True
     for t in ('findlist:star:found', 'findlist:star:nothing', 'findlist:error'):
         rep.guard(t in rep.cover or not calls, '%s never exercised' % t)
@@ -155,6 +175,18 @@ def check_C09(tier):
     calls2.sort(key=lambda c: c['univ'])
     K.code_to_spec(rep, env, conf, calls2, '">" searches through FindInList / FindInPaths(local, server) / FindInAll on materialised trees',
                    tag='findersgt', extra={'SPIL_UNIVERSES': uni, 'SPIL_CONF_JSON': conf}, envs=store_envs(8, env), per=40, chunk=2000)
+    # Sid.get_last(key): for the version-level Sids of the store universes (existing and missing ones), with a data change in between
+    universes = json.load(open(uni))['universes']
+    raw = json.load(open(conf))
+    vkey = 'version'
+    gl = []
+    for u in sorted(k for k in universes if k.endswith(':complete')):
+        ents = [e for e in universes[u] if len(e) == 6]
+        for e in ents[: (12 if tier == 'quick' else len(ents))]:
+            gl.append(dict(op='getlast', univ=u, segs=e, key=vkey, bump='v999'))
+            gl.append(dict(op='getlast', univ=u, segs=e[:5] + ['v998'], key=vkey, bump='v999'))
+    K.code_to_spec(rep, env, conf, gl, 'Sid.get_last("version") before and after a greater version appears on disk',
+                   tag='getlast', extra={'SPIL_UNIVERSES': uni, 'SPIL_CONF_JSON': conf}, envs=store_envs(4, env), per=8, chunk=2000)
     rep.items = [it for it in rep.items if it['kind'] != 'finders' or not set(it['clauses']) <= {'finders_agree_despite_type_guess'}]
     rep.exhaustive = True
     rep.guard('findlist:gt:found' in rep.cover or not calls, 'no ">" search with a result exercised')
@@ -480,6 +512,10 @@ def check_C17(tier):
             c = dict(base, op=op, **sc)
             c['expect_found'] = [f1] if sc['sid'] == f1 or sc['other'] == f1 else []
             calls.append(c)
+    # one set() carrying several attributes is still ONE logical write
+    multi = dict(base, new=[['k1', 'x'], ['k0', 'changed'], ['k9', 'added']])
+    for op in ('effects', 'crash'):
+        calls.append(dict(multi, op=op, **scen[1], expect_found=[f1]))
     if tier == 'thorough':
         for sc in scen:
             calls.append(dict(base, op='crash', new=[['k1', 'x' * 40], ['k3', 'some longer value']], **sc, expect_found=[f1]))
@@ -610,7 +646,7 @@ def check_C20(tier):
     from common import PY, HARNESS, REPO, scratch
     import subprocess
     rep = Report('C20', tier)
-    variants = ['all_changes'] if tier == 'quick' else ['rename_keys', 'rename_types', 'separators', 'insert_level', 'leaf_extrapolation', 'renamed_everything', 'all_changes']
+    variants = ['all_changes'] if tier == 'quick' else ['rename_keys', 'rename_types', 'separators', 'insert_level', 'leaf_extrapolation', 'third_path_config', 'renamed_everything', 'all_changes']
     subs = [('C01', K.check_C01, 'quick'), ('C02', check_C02, 'quick'), ('C04', check_C04, 'quick'), ('C05', check_C05, 'quick'),
             ('C06', check_C06, 'quick'), ('C07', check_C07, 'c20'), ('C08', check_C08, 'c20')]
     if tier == 'thorough':
